@@ -33,8 +33,12 @@ func EncodeRawXMLElement(v interface{}) (*RawXMLValue, error) {
 
 // UnmarshalXML implements xml.Unmarshaler.
 func (val *RawXMLValue) UnmarshalXML(d *xml.Decoder, start xml.StartElement) error {
-	return val.unmarshalXML(d, start, false)
+	return val.unmarshalXML(d, start, false, 1)
 }
+
+// maxRawXMLDepth is the maximum nesting depth of a RawXMLValue. It's the same
+// limit encoding/xml applies to its own recursion when unmarshalling.
+const maxRawXMLDepth = 10000
 
 // captureStartElement prepares a start element for being replayed later.
 // Element and attribute names are captured with their namespace resolved, so
@@ -64,7 +68,11 @@ func captureStartElement(start xml.StartElement, inNamespace bool) xml.StartElem
 	return start
 }
 
-func (val *RawXMLValue) unmarshalXML(d *xml.Decoder, start xml.StartElement, inNamespace bool) error {
+func (val *RawXMLValue) unmarshalXML(d *xml.Decoder, start xml.StartElement, inNamespace bool, depth int) error {
+	if depth > maxRawXMLDepth {
+		return fmt.Errorf("webdav: XML value exceeds the maximum nesting depth")
+	}
+
 	val.tok = captureStartElement(start, inNamespace)
 	val.children = nil
 	val.out = nil
@@ -77,7 +85,7 @@ func (val *RawXMLValue) unmarshalXML(d *xml.Decoder, start xml.StartElement, inN
 		switch tok := tok.(type) {
 		case xml.StartElement:
 			child := RawXMLValue{}
-			if err := child.unmarshalXML(d, tok, inNamespace || start.Name.Space != ""); err != nil {
+			if err := child.unmarshalXML(d, tok, inNamespace || start.Name.Space != "", depth+1); err != nil {
 				return err
 			}
 			val.children = append(val.children, child)
